@@ -85,7 +85,7 @@ type c04Case struct {
 
 const c04Rule = "case = protocol (ipfix | nf9) + 2..6 (exporter address, template id) slots (IPv4 4-byte, IPv4-mapped, IPv6; ids shared across exporters; adversarial pairs that collide on the cache's " +
 	"full 32-bit FNV-1 hash, share a shard, or share a shard and have the same text when address and id are written without separator; found by searching ~1.5M keys) + 2..30 operations: announce (alone or with data in the same message), re-announce with a different definition " +
-	"(same record length with other elements, same elements with other field lengths, a fresh template, or fields of length zero: then data naming the id must yield nothing), field-less template records ([id,0] and [2,0], alone or with re-announcements behind them in the same set: a re-announced id has the new definition, an id the record does not concern is untouched, the named id decodes as before or yields nothing plus an error), drawn export times, malformed messages in which a variable-length record runs past the end of its set over octets that would read as a template set (ipfix: the slot keeps the template announced last), data under the model's current template, data for a never-announced slot, peer Get (ipfix), and messages mixing data sets and (re-)announcements of several ids of one exporter in any order (in a quarter of the multi-template messages 13..40 template records, the same ids announced over and over: the last record of an id counts), in a quarter of them with 1..80 data sets of never-announced templates in front of some of the sets; " +
+	"(same record length with other elements, same elements with other field lengths, a fresh template, back to a definition the id had before, or fields of length zero: then data naming the id must yield nothing), field-less template records ([id,0] and [2,0], alone or with re-announcements behind them in the same set: a re-announced id has the new definition, an id the record does not concern is untouched, the named id decodes as before or yields nothing plus an error), drawn export times, malformed messages in which a variable-length record runs past the end of its set over octets that would read as a template set (ipfix: the slot keeps the template announced last), data under the model's current template, data for a never-announced slot, peer Get (ipfix), and messages mixing data sets and (re-)announcements of several ids of one exporter in any order (in a quarter of the multi-template messages 13..40 template records, the same ids announced over and over: the last record of an id counts), in a quarter of them with 1..80 data sets of never-announced templates in front of some of the sets; " +
 	"invariant after every step = decode equals the reference expectation under the model's template for exactly that slot, unannounced slots give an 'unknown template' error and no records, peer Get returns the model's template or 'not available'; " +
 	"non-trivial = a re-announcement followed by data, or >= 2 exporters using one id with different definitions, or a colliding pair in use; distinct by hash"
 
@@ -290,6 +290,7 @@ func genC04(t *rapid.T, proto string, env *wire.GenEnv, opts ...string) c04Case 
 		addSlot(c04Slot{Addr: []byte{203, 0, 113, 10}, ID: ids[0]})
 	}
 	model := map[int]*wire.Template{}
+	earlier := map[int][]wire.Template{} // definitions a slot had before its current one
 	nops := rapid.IntRange(2, 30).Draw(t, "nops")
 	for i := 0; i < nops; i++ {
 		slot := rapid.IntRange(0, len(c.Slots)-1).Draw(t, "slot")
@@ -474,6 +475,10 @@ func genC04(t *rapid.T, proto string, env *wire.GenEnv, opts ...string) c04Case 
 					f.Len = 0
 					tp.Fields = append(tp.Fields, f)
 				}
+			case cur != nil && len(earlier[slot]) > 0 && rapid.IntRange(0, 3).Draw(t, "backto") == 0:
+				// back to a definition the slot had before (A, B, A: the announcement is octet for octet one the collector
+				// has seen, and it is the exporter's latest all the same)
+				tp = earlier[slot][rapid.IntRange(0, len(earlier[slot])-1).Draw(t, "backtowhich")]
 			case cur != nil && rapid.IntRange(0, 2).Draw(t, "redefkind") == 0:
 				tp = redefineSameLength(t, env, cur)
 			case cur != nil && rapid.IntRange(0, 1).Draw(t, "redefkind2") == 0:
@@ -500,6 +505,9 @@ func genC04(t *rapid.T, proto string, env *wire.GenEnv, opts ...string) c04Case 
 				op.Recs, op.Pad = ds.Recs, ds.Pad
 			}
 			c.Ops = append(c.Ops, op)
+			if cur != nil {
+				earlier[slot] = append(earlier[slot], *cur)
+			}
 			model[slot] = &tp
 			delete(tolerant, slot)
 		default:
